@@ -20,6 +20,10 @@ BOS = [None, 1, 1.5, 2]
 MS = [2, 3, 4, 6, 9]
 
 
+HISTORIES = [[(1.41, 'rule'), (1.44, 'rule'), (1.38, 'explicit'), (1.41, 'explicit')], [(None, 'guess'), (1.46, 'rule'), (1.5, 'explicit'), (1.54, 'explicit'), (None, 'guess')],
+             [(2, 'explicit'), (1.96, 'rule'), (2.04, 'explicit'), (1, 'explicit'), (1.04, 'rule'), (0.96, 'explicit')], [(0.25, 'explicit'), (0.26, 'explicit'), (0.5, 'rule'), (0.49, 'rule')]]
+
+
 def worker_init(ctx):
     ru.print = lambda *a, **k: None      # harness-side: silence the per-call prints of dihedral_params
 
@@ -39,6 +43,7 @@ def plan(tier, seed):
     scs += [dict(kind='triples-rules', j=j) for j in sub]
     scs += [dict(kind='quads-bo', j=j) for j in range(N)]
     scs.append(dict(kind='paircoeffs'))
+    scs += [dict(kind='pairs-history', i=i) for i in range(N)]
     if tier == 'quick':
         scs += [dict(kind='quads', j=j, k=None) for j in range(N)]
     else:
@@ -46,7 +51,7 @@ def plan(tier, seed):
     scs += [dict(kind='quads-M', j=j) for j in range(N)]
     reps = outer_reps()
     return dict(scenarios=scs, exhaustive=True, chunk=8 if tier == 'thorough' else 4,
-                menus=dict(types=N, bond_orders=['guessed', 1, 1.5, 2], rule_sets=['none', 'matching rule', 'non-matching rule', 'rules naming a superset / a mixed pair with another type (must not match)', 'three rules, the second matches (first match wins)'], multiplicities=[1] + MS,
+                menus=dict(types=N, bond_orders=['guessed', 1, 1.5, 2], rule_sets=['none', 'matching rule', 'non-matching rule', 'rules naming a superset / a mixed pair with another type (must not match)', 'three rules, the second matches (first match wins)'], multiplicities=[1] + MS, pair_call_histories=[repr(h) for h in HISTORIES],
                            outer_representatives=[K[i] for i in reps], triple_bond_order_subtable=len(sub),
                            quadruples='all %d^4 ordered quadruples' % N if tier == 'thorough' else 'all %d^2 central pairs x %d^2 outer representatives' % (N, len(reps))),
                 bounds=dict(), rule='every ordered pair / triple / quadruple of the parameter table is one case; non-trivial = the combination takes a special-case branch (non-default bond order, cosine/periodic angle, torsion other than the default mixed case)',
@@ -108,6 +113,32 @@ def run(sc, ctx):
                         out['nontrivial'] += REF.BO[i, j] != 1.0
         if sc['i'] == 10:
             out['samples'] = [dict(kind='pair', types=[a, K[3]], bond_params=list(ru.bond_params(a, K[3])))]
+        return out
+    if kind == 'pairs-history':
+        # call histories in one process: the same ordered pair evaluated again and again with bond orders that lie close together
+        # (given explicitly and through rules); every answer must be the formula for *this* call's bond order
+        i = sc['i']; a = K[i]
+        for j, b in enumerate(K):
+            for hist in HISTORIES:
+                for step, (bo, via) in enumerate(hist):
+                    eff = REF.BO[i, j] if bo is None else bo
+                    ri, rj = REF.r[i], REF.r[j]
+                    rbo = -0.1332 * (ri + rj) * math.log(eff)
+                    ren = ri * rj * (math.sqrt(REF.chi[i]) - math.sqrt(REF.chi[j])) ** 2 / (REF.chi[i] * ri + REF.chi[j] * rj)
+                    rij = ri + rj + rbo - ren; kexp = 664.12 * REF.Z[i] * REF.Z[j] / rij ** 3 / 2
+                    if bo is None:
+                        got, err = call(ru.bond_params, a, b)
+                    elif via == 'explicit':
+                        got, err = call(ru.bond_params, a, b, bond_order=bo)
+                    else:
+                        got, err = call(ru.bond_params, a, b, bond_order_rules=[({a, b}, bo)])
+                    out['evals'] += 1; out['compared'] += 1; out['states'] += 1
+                    if err:
+                        V(out, sc, 'bond', 'history-exc', 'bond_params(%s,%s) with bond order %s (%s) raised %r' % (a, b, bo, via, err[0])); continue
+                    if not (close(got[0], kexp) and close(got[1], rij)):
+                        V(out, sc, 'bond', 'history-value', 'call %d of the history %r: bond_params(%s, %s) with bond order %s (%s) = %r, UFF eqs. 2,3,6,7 give (%r, %r)' % (step + 1, hist, a, b, bo, via, got, kexp, rij))
+            out['nontrivial'] += 1
+        oc['pair histories'] = oc.get('pair histories', 0) + N * len(HISTORIES)
         return out
     if kind in ('triples', 'triples-bo'):
         j = sc['j']; b = K[j]
